@@ -1,6 +1,6 @@
 \* X09 quick: templates: 6 directories (none, logs, ./target/logs, "/var/log/my app", a/b.d/c, ..) x 11 names (my_app.txt, app, .hidden, app.tar.gz, "app.",
 \* "a b.log", log.123, .a.b, a..b, x.deadbeef, 2024.05) x trailing slash; 7 templates without a file name; counters: max_files {1, 2} x 0 / 2 existing
-\* members x max size {6 bytes, large} x <= 2 fresh batches of 1 - 2 four-byte events (same or next period) x one fault at most
+\* members x max size {6 bytes, large} x <= 2 fresh batches of 1 - 2 four-byte events (same or next period, plus 0 - 1 events whose formatting fails) x one fault at most
 \* (mkdir, list, create, write, delete, sync) and its retry. Exhaustive.
 SPECIFICATION Spec
 CONSTANTS
@@ -15,8 +15,9 @@ CONSTANTS
     MaxSizeSet = {6, 1000}
     MaxBatches = 2
     EvBytes = 4
+    BadSet = {0, 1}
     Emit = TRUE
 VIEW view
-INVARIANTS TemplateRule MembersRecognised ForeignNotMember Conservation FailuresCounted RetentionBound BatchesAccounted CreatedWhenNeeded
+INVARIANTS FormatFailures TemplateRule MembersRecognised ForeignNotMember Conservation FailuresCounted RetentionBound BatchesAccounted CreatedWhenNeeded
 ACTION_CONSTRAINT EmitReplay
 CHECK_DEADLOCK FALSE
